@@ -174,8 +174,17 @@ def run(prog, chk):
                     r4.ok(key, "scanner initialisation")
                     continue
                 labels = [(x.id, -1) for x in fn.blocks.values() if x.label and x.label.get("k") == "case" and x.label.get("v") in SKIP_DIRECTIVES]
+                # the same selection written as a comparison: `x == CIF_TRAVERSE_SKIP_*` (true outcome)
+                def is_skip(cnd):
+                    t = cfgq.cmp_test(cnd, lambda e: path(strip(e)) is not None or strip(e).get("k") in ("asg", "call"))
+                    if t and t[1] in SKIP_DIRECTIVES:
+                        return "true" if t[0] == "==" else ("false" if t[0] == "!=" else None)
+                    return None
+                skip_edges = cfgq.guard_edges(fn, is_skip)
                 if c in (1, 2) and labels and (b.label and b.label.get("v") in SKIP_DIRECTIVES or cfgq.must_precede(fn, (b.id, i), labels)):
                     r4.ok(key, "under a SKIP directive case label")
+                elif c in (1, 2) and skip_edges and cfgq.must_pass_edge(fn, b.id, skip_edges):
+                    r4.ok(key, "under a comparison with a SKIP directive")
                 else:
                     r4.violation(fn.file, fname, nn.get("l"), "depth-store-form:" + key,
                                  "skip_depth is assigned %s outside a SKIP_CURRENT/SKIP_SIBLINGS case" % c)
